@@ -9,7 +9,8 @@
           (parse_payload), max_payload_len_bytes (maxp), the sanity limit (maxe), return_bytes / return_offset (rb, ro).
    All theorems quantify over every parser, every maxp/maxe, both flags, every stream and every chunking. *)
 From Coq Require Import NArith List Bool.
-From FEC Require Import Generated.FEConsts Base.Scan Base.FEFormat Models.PyDecoderM Proofs.PyDecoderP Proofs.PyDecoderThm.
+From FEC Require Import Generated.FEConsts Generated.EncoderConsts Base.Scan Base.FEFormat Models.PyDecoderM Proofs.PyDecoderP Proofs.PyDecoderThm
+  Models.EncoderM Proofs.EncoderP Proofs.PyDecoderLinkP.
 Import ListNotations.
 
 (* The SPEC with the generated sanity limit is the shared FusionEngine judge whenever the configured maximum does not
@@ -131,6 +132,70 @@ Theorem C04_buffer_bound :
   end.
 Proof. exact (@buffer_bound). Qed.
 Print Assumptions C04_buffer_bound.
+
+(* SYSTEM LEVEL (composition with C06): whatever FusionEngineEncoder produces, the decoder returns.  For every
+   encoder state s reachable from construction, every history of encode_message calls within the encoder's domain
+   (call_in_domain: type < 2^16, version < 2^8, source id < 2^32, payload of bytes shorter than 2^32), each payload
+   within the decoder's limits and accepted by the payload parser (link_call_ok: the C04 known-finding proviso, stated
+   per message), and EVERY division of the concatenated encoder outputs into on_data calls:
+   the encoder returns the outputs enc_outs s calls; the decoder returns exactly one entry per call, in order; entry k
+   carries type / version / source id / payload size of call k, sequence number (s + k) mod 2^32, the parser's value for
+   the original payload bytes, raw bytes equal to the k-th encoder output and offset equal to the total length of the
+   outputs before it; nothing stays buffered, no header is cached, and every byte is accounted as processed. *)
+Theorem C04_decodes_encoder_output :
+  forall (P : Type) (parse : N -> list N -> option P) maxp maxe rb ro calls s chunks,
+  Encoder_reachable s -> Forall call_in_domain calls -> Forall (link_call_ok parse maxp maxe) calls ->
+  concat chunks = concat (enc_outs s calls) ->
+  fst (Encoder_run s calls) = map Some (enc_outs s calls) /\
+  exists rss st',
+    PyDecoder_run parse maxp maxe rb ro false PyDecoder_init chunks = PdRunDone rss st' /\
+    map Some (concat rss) = map (PyDecoder_result_of parse rb ro) (rebase 0 (enc_outs s calls)) /\
+    length (concat rss) = length calls /\
+    pd_buf st' = [] /\ pd_hdr st' = None /\ pd_processed st' = N.of_nat (length (concat chunks)) /\
+    forall k m src r, nth_error calls k = Some (m, src) -> nth_error (concat rss) k = Some r ->
+      h_type (pr_hdr r) = p_type m /\ h_msgver (pr_hdr r) = p_version m /\ h_source (pr_hdr r) = src /\
+      h_seq (pr_hdr r) = ((s + N.of_nat k) mod 4294967296)%N /\
+      h_psize (pr_hdr r) = N.of_nat (length (p_bytes m)) /\
+      parse (p_type m) (p_bytes m) = Some (pr_payload r) /\
+      exists out, nth_error (enc_outs s calls) k = Some out /\
+        pr_bytes r = (if rb then Some out else None) /\
+        pr_off r = (if ro then Some (N.of_nat (length (concat (firstn k (enc_outs s calls))))) else None).
+Proof. exact (@decodes_encoder_output). Qed.
+Print Assumptions C04_decodes_encoder_output.
+
+(* The same with junk: before each encoder output any run of bytes none of which is the first sync byte ('.');
+   the messages come back in order, each at its true offset (rebase_junk), and nothing stays buffered. *)
+Theorem C04_decodes_encoder_output_with_junk :
+  forall (P : Type) (parse : N -> list N -> option P) maxp maxe rb ro calls s junks chunks,
+  Encoder_reachable s -> Forall call_in_domain calls -> Forall (link_call_ok parse maxp maxe) calls ->
+  length junks = length calls -> Forall (Forall (fun b => b <> SYNC0)) junks ->
+  concat chunks = interleave junks (enc_outs s calls) ->
+  exists rss st',
+    PyDecoder_run parse maxp maxe rb ro false PyDecoder_init chunks = PdRunDone rss st' /\
+    map Some (concat rss) = map (PyDecoder_result_of parse rb ro) (rebase_junk 0 junks (enc_outs s calls)) /\
+    pd_buf st' = [] /\ pd_processed st' = N.of_nat (length (concat chunks)).
+Proof. exact (@decodes_encoder_output_with_junk). Qed.
+Print Assumptions C04_decodes_encoder_output_with_junk.
+
+(* Non-vacuity of the composition on real bytes: the hypotheses hold for an encoder whose counter is 2^32 - 1 and two
+   calls (an InputDataWrapper payload with source id 7, an unknown-type payload with version 1); the encoder model
+   produces sequence numbers 2^32 - 1 and 0 (wrap), and the decoder model, fed the 63 bytes one at a time, returns both
+   messages with those numbers, offsets 0 and 36, the original payloads, the encoder's bytes, and an empty buffer. *)
+Example C04_link_nonvacuous :
+  (Encoder_reachable 4294967295 /\ Forall call_in_domain demo_calls /\ Forall (link_call_ok demo_parser M24 M24) demo_calls) /\
+  match Encoder_run 4294967295 demo_calls with
+  | ([Some a; Some b], s') =>
+      s' = 1%N /\
+      match PyDecoder_run demo_parser M24 M24 true true false PyDecoder_init (map (fun x => [x]) (a ++ b)) with
+      | PdRunDone rss st =>
+          map (fun r => (h_type (pr_hdr r), h_seq (pr_hdr r), pr_payload r, pr_off r)) (concat rss) =
+            [ (13120, 4294967295, [0; 0; 0; 0; 0; 0; 0; 0; 1; 2; 3; 4], Some 0); (20000, 0, [9; 8; 7], Some 36) ]%N /\
+          map (fun r => pr_bytes r) (concat rss) = [Some a; Some b] /\ pd_buf st = [] /\ pd_processed st = 63%N
+      | _ => False
+      end
+  | _ => False
+  end.
+Proof. split; [exact demo_calls_ok | exact demo_link_run]. Qed.
 
 (* Non-vacuity: the initial state satisfies the between-calls invariant; the proviso of C04_exact_partial is met by a
    non-trivial parser; the SPEC accepts the 27-byte witness that the decoder drops; on real message bytes the decoder
